@@ -66,6 +66,21 @@ func c10Body(c *core.Ctx) {
 			}
 		}
 	}
+	// 3b. Aztec: what automatic sizing fits into a size, the explicit request for that size must accept
+	// (evaluated inside the az evaluator): every length through the compact sizes, a sweep beyond
+	for _, p := range []int{0, 10, 16, 33} {
+		for n := 1; n <= 1900; n++ {
+			if n > 200 && n%7 != 0 {
+				continue
+			}
+			for fi, fill := range azFills {
+				if fi == 3 || fi > 4 {
+					continue
+				}
+				Run(c, &core.Case{Fam: "az", S: fill(n), P: []int{p, 0}})
+			}
+		}
+	}
 	// 4. far beyond capacity
 	big := func(al string, n int) []byte { return []byte(Filler(al, n)) }
 	Run(c, &core.Case{Fam: "c128", S: big("0123456789", 1000), P: []int{1}})
@@ -127,8 +142,11 @@ func c12Body(c *core.Ctx) {
 	}
 	for _, p := range pcts {
 		for _, l := range layers {
-			for _, n := range []int{1, 2, 7, 16, 40, 100, 250, 600} {
-				for _, fill := range azFills[:3] {
+			for _, n := range []int{1, 2, 7, 9, 16, 21, 40, 64, 100, 250, 600} {
+				for fi, fill := range azFills {
+					if fi == 3 {
+						continue
+					}
 					Run(c, &core.Case{Fam: "az", S: fill(n), P: []int{p, l}})
 				}
 			}
